@@ -6,6 +6,7 @@ CONSTANTS
   Keys = {"x"}
   Vals = {"1", "2"}
   MaxLoops = 2
+  Construct = TRUE
   Concurrent = FALSE
 INVARIANT TypeOK
 INVARIANT CycleBounded
